@@ -224,8 +224,15 @@ class Srv:
                 self._watch(self.app._instance_manager._instances[u]["instance"], u)
         return st, d
 
+    def rewatch(self):
+        """/load-state replaces the bptk objects of the instances in memory: watch the objects that are there now"""
+        for uid, rec in list(self.app._instance_manager._instances.items()):
+            if uid in self.watched and not getattr(rec["instance"], "_verif_watched", False):
+                self._watch(rec["instance"], uid)
+
     def _watch(self, inst, uid):
         self.watched.add(uid)
+        inst._verif_watched = True
         orig = inst.destroy
         def destroy(*a, **k):
             self.destroy_calls.setdefault(uid, 0)
